@@ -150,6 +150,8 @@ def tlc(module, cfg, workers=None, env=None, timeout=1100, simulate=None, depth=
                 continue                  # proof modules are read by tlapm only
             with open(p, 'rb') as f:
                 h.update(f.read())
+        with open(os.path.join(errtable_dir(), 'ScpiErrTable.tla'), 'rb') as f:
+            h.update(f.read())
         cfgp = cfg if os.path.isabs(cfg) else os.path.join(SPEC, cfg)
         with open(cfgp, 'rb') as f:
             h.update(f.read())
@@ -168,7 +170,7 @@ def tlc(module, cfg, workers=None, env=None, timeout=1100, simulate=None, depth=
             except ValueError:
                 pass
     meta = ensure(os.path.join(WORK, 'tlc', '%d-%d-%s' % (os.getpid(), next(_uniq), module)))
-    cmd = ['java', '-XX:+UseParallelGC', '-Xmx' + xmx, '-Xss16m',
+    cmd = ['java', '-XX:+UseParallelGC', '-Xmx' + xmx, '-Xss16m', '-DTLA-Library=' + tla_library(),
            '-cp', '/opt/veriftools/tla/tla2tools.jar:/opt/veriftools/tla/CommunityModules-deps.jar', 'tlc2.TLC',
            '-metadir', meta, '-noGenerateSpecTE', '-config', cfg, '-workers', str(workers or NCPU)]
     if not deadlock:
@@ -317,8 +319,50 @@ def parse_tla(s):
     except (ValueError, IndexError):
         return None
 
+def errtable_dir():
+    """The error description table is data of the repository under test, not behaviour: ScpiErrTable.tla is generated from
+    inc/scpi/error.h (and the fallback text of error.c) of the tree being checked, into work/gen/, and found by TLC / SANY
+    through TLA-Library.  Returns the directory."""
+    r = os.path.join(repo(), 'libscpi')
+    src = open(os.path.join(r, 'inc', 'scpi', 'error.h'), errors='replace').read()
+    ents = re.findall(r'XE?\(\s*\w+\s*,\s*(-?\d+)\s*,\s*"((?:[^"\\]|\\.)*)"\s*\)', src)
+    m = re.search(r'default\s*:\s*return\s*"((?:[^"\\]|\\.)*)"', open(os.path.join(r, 'src', 'error.c'), errors='replace').read())
+    fb = m.group(1) if m else 'Unknown error'
+    unesc = lambda t: t.encode('latin1', 'replace').decode('unicode_escape')
+    seq = lambda t: ', '.join(str(ord(c) & 255) for c in unesc(t))
+    num = lambda c: ('0 - %d' % -int(c)) if int(c) < 0 else str(int(c))
+    out = ['---------------------------- MODULE ScpiErrTable ----------------------------',
+           '(* The error/event description table of the library under test (inc/scpi/error.h, full list; fallback text of   *)',
+           '(* error.c).  Generated by run/lib.py errtable_dir() for every check run: the texts are data, not behaviour.   *)',
+           'EXTENDS Integers, Sequences', '',
+           'FallbackDesc == <<%s>>' % seq(fb), '',
+           'KnownCodes == {%s}' % ', '.join(num(c) for c, _ in ents), '',
+           'Desc(code) ==']
+    seen = set()
+    k = 0
+    for c, d in ents:
+        if int(c) in seen:
+            continue
+        seen.add(int(c))
+        out.append('  %s code = %s THEN <<%s>>' % ('IF' if k == 0 else 'ELSE IF', num(c), seq(d)))
+        k += 1
+    out.append('  ELSE FallbackDesc' if k else '  FallbackDesc')
+    out.append('=============================================================================')
+    text = '\n'.join(out) + '\n'
+    d = ensure(os.path.join(WORK, 'gen', 'errtable-' + hashlib.sha256(text.encode()).hexdigest()[:16]))
+    f = os.path.join(d, 'ScpiErrTable.tla')
+    if not os.path.exists(f):
+        tmp = f + '.%d' % os.getpid()
+        with open(tmp, 'w') as fo:
+            fo.write(text)
+        os.rename(tmp, f)
+    return d
+
+def tla_library():
+    return '/opt/veriftools/tlapm/lib/tlapm/stdlib' + os.pathsep + errtable_dir()
+
 def sany(module):
-    p = subprocess.run(['java', '-DTLA-Library=/opt/veriftools/tlapm/lib/tlapm/stdlib', '-cp', '/opt/veriftools/tla/tla2tools.jar:/opt/veriftools/tla/CommunityModules-deps.jar', 'tla2sany.SANY', module],
+    p = subprocess.run(['java', '-DTLA-Library=' + tla_library(), '-cp', '/opt/veriftools/tla/tla2tools.jar:/opt/veriftools/tla/CommunityModules-deps.jar', 'tla2sany.SANY', module],
                        cwd=SPEC, stdout=subprocess.PIPE, stderr=subprocess.STDOUT)
     o = p.stdout.decode(errors='replace')
     return p.returncode == 0 and 'error' not in o.lower().replace('semantic errors:\n\n', ''), o
